@@ -6,6 +6,7 @@ package pointstore
  * node Ids whereas points require a more careful treatment. */
 
 import (
+	"bytes"
 	"errors"
 	"fmt"
 
@@ -94,7 +95,9 @@ func GetPointByUUID(bucket diskstore.ReadOnlyBucket, pointId uuid.UUID) (ShardPo
 	if err != nil {
 		return ShardPoint{}, err
 	}
-	data := bucket.Get(conversion.NodeKey(nodeId, 'd'))
+	// The bucket's bytes are only valid during the transaction, callers keep
+	// the point (search results, index changes) so it gets its own copy.
+	data := bytes.Clone(bucket.Get(conversion.NodeKey(nodeId, 'd')))
 	sp := ShardPoint{
 		Point: models.Point{
 			Id:   pointId,
@@ -116,7 +119,8 @@ func GetPointByNodeId(bucket diskstore.ReadOnlyBucket, nodeId uint64, withData b
 	}
 	var data []byte
 	if withData {
-		data = bucket.Get(conversion.NodeKey(nodeId, 'd'))
+		// Copied because search results outlive the read transaction
+		data = bytes.Clone(bucket.Get(conversion.NodeKey(nodeId, 'd')))
 	}
 	sp := ShardPoint{
 		Point: models.Point{
